@@ -442,13 +442,17 @@ func TestRealNATS(t *testing.T) {
 			_ = client.PublishRequest(subj, inbox, nil)
 			_ = client.Flush()
 			n := 0
+			// generous wait for the first response, short extra wait for duplicates
+			wait := 10 * time.Second
 			for {
-				_, err := sub.NextMsg(150 * time.Millisecond)
+				_, err := sub.NextMsg(wait)
 				if err != nil {
 					break
 				}
 				n++
+				wait = 150 * time.Millisecond
 			}
+
 			_ = sub.Unsubscribe()
 			// how many maximal owned patterns of this kind match the name
 			owned := wantRes
